@@ -195,6 +195,14 @@ Theorem C15_member_list_assignment :
 Proof. intros c e g k ids; split; [intro g'; apply setmembers_accepted | apply setmembers_bad_kind]. Qed.
 Print Assumptions C15_member_list_assignment.
 
+(* reading any broadcast attribute of any of the nine classes in ANY state (hence after any history of
+   operations): the members' current values of the member attribute of that name, in member order *)
+Theorem C15_read_in_any_state :
+  forall c e g a d, In c canonical -> find_descr c a = Some d -> is_members d = false ->
+  step c e g (OGet a) = (g, RVals (map (mget (member_attr a)) g)).
+Proof. exact read_in_any_state. Qed.
+Print Assumptions C15_read_in_any_state.
+
 (* after ANY history of add / member-list assignment / attribute assignment (rename = assignment of
    names) / read / lookup / observe operations on an initially empty group, every member's
    scene-graph parent is the group and every member is an observer of the group's type *)
